@@ -167,12 +167,27 @@ def verify_side(pid: str, repo_root=None):
     items = []
     if pid == "C12":
         items += sidecond.ownership(repo)
+    if pid == "C13":
+        ro = {"neighbors", "find_links", "vertices", "links", "universes", "_df_preflight_checks", "_dft_recur", "_dfs_recur",
+              "ibft", "idft_recursive", "idft_iterative", "other", "uid", "_resolve_options", "_vertex_title",
+              "_one_vert_to_puml", "_one_link_to_puml", "_one_vert_to_skinparam", "make_pyvis_net"}
+        for q, owned in [("breadthfirst.ibft", ()), ("breadthfirst.bft", ()), ("breadthfirst.bfs", ()),
+                         ("depthfirst._df_preflight_checks", ()), ("depthfirst._dft_recur", ("visited",)),
+                         ("depthfirst.idft_recursive", ()), ("depthfirst.dft_recursive", ()),
+                         ("depthfirst._dfs_recur", ("visited",)), ("depthfirst.dfs_recursive", ()),
+                         ("depthfirst.idft_iterative", ()), ("depthfirst.dft_iterative", ()), ("depthfirst.dfs_iterative", ()),
+                         ("plaintext.basic_render", ()),
+                         # the PlantUML helpers write only to the caller's *options table* (compiled regex cache), never to the graph
+                         ("plantuml._resolve_options", ("opts",)), ("plantuml._vertex_title", ()),
+                         ("plantuml._one_vert_to_puml", ()), ("plantuml._one_link_to_puml", ()),
+                         ("plantuml._one_vert_to_skinparam", ()), ("plantuml.render_to_plantuml_src", ())]:
+            items += sidecond.readonly_effects(repo, q, ro, owned)
     if pid == "C19":
         items += sidecond.no_setters(repo, "UniverseLaws", ["edge_whitelist", "mixed_links", "cycles", "multipath", "multiverse"])
     ident = sidecond.identity_model(repo)
     for (oid, ok, why, fi, line) in items:
         res["obligations"].append({"id": oid, "kind": "side", "status": "proved" if ok else "refuted", "backend": "syntactic",
-                                   "seconds": 0.0, "meta": {"clause": why or "ownership discipline", "trail": "",
+                                   "seconds": 0.0, "meta": {"clause": why or "syntactic side condition holds", "trail": "",
                                                             "where": (fi.file + ":" + str(line)) if fi else ""}})
     for (oid, ok, why, fi, line) in ident:
         if not ok:
